@@ -8,6 +8,14 @@ def run(tier, seed):
     t0 = time.time()
     base = scratch('c17')
     jobs, not_under, info = apicheck.build({'cwrappers'}, base, only=os.environ.get('VF_ONLY'))
+    unexpected = [x for x in not_under if x[0] != 'c__masa_test_default']
+    if unexpected and not os.environ.get('VF_ONLY'):
+        from common import Report, write_evidence
+        rep = Report('C17')
+        for n, why in unexpected:
+            rep.undecide('extraction break: extern "C" %s left the rule table (%s): it can no longer be checked' % (n[3:], why))
+        write_evidence('C17', tier, seed, 'proof', {'evaluations': 0, 'distinct_nontrivial': 0, 'explanation': 'extraction break'}, apicheck.TRUSTED_API, time.time() - t0, 0)
+        return rep.finish()
     results = apicheck.run_jobs(jobs, base, tier)
     return apicheck.finish('C17', results, not_under, info, tier, seed, t0, base,
         'each wrapper body extracted from cmasa.cpp; the template it calls is an uninterpreted function + ghost call record; '
